@@ -99,7 +99,12 @@ def build(X):
     model = common_rq.rq_module(X)
 
     # ---- decision
-    d = X.slice(PREPROCESS, "distinct", "let take_only_first =", "res.extend(create_filter_by_row_number(range, sort, partition, ctx));", name="distinct_choice_slice")
+    # from behind the statement that computes range_int (`let range_int = range..try_map(as_int)..?;`) to the end of the if / else-if / else chain
+    d = X.slice(PREPROCESS, "distinct", "let range_int = range", "res.extend(create_filter_by_row_number(range, sort, partition, ctx));", name="distinct_choice_slice")
+    mq = re.search(r"\?;\n", d.text)
+    if not mq or "let take_only_first" not in d.text[mq.end():]:
+        raise ExtractionError("distinct(): `let range_int = ..?;` followed by `let take_only_first = ..` not found")
+    d.text = d.text[mq.end():]
     d.text = d.text + "\n                }"
     d.rewrites.append({"rule": "slice", "what": "statements from `let take_only_first` to the end of the if / else-if / else chain of the grouped-take arm of distinct(), wrapped as "
                        "fn distinct_choice_slice; the statement computing matching_columns (determine_select_columns, vecs_contain_same_elements) is dropped: "
@@ -108,6 +113,7 @@ def build(X):
     if not m:
         raise ExtractionError("distinct(): the statements computing matching_columns are not where the unit expects them")
     d.text = d.text[:m.start()] + d.text[m.end():]
+    d.desugar_option_closures()
     d.rewrite_re("R5", r"\bctx\.dialect\.supports_distinct_on\(\)", "ctx.supports_distinct_on", count=None, why="dialect flag is a field of the context shim")
     d.rewrite_re("R5", r"\[into_column_sort\(&partition\), sort\]\.concat\(\)", "concat_sorts(&partition, sort)", count=None, why="slice concat of two sort lists")
     d.rewrite_re("R5", r"\bres\.extend\(", "vec_extend_t(&mut res, ", count=None, why="Vec::extend")
